@@ -53,7 +53,7 @@ def knobs(tier, name):
     """scope selection only: which groups, how many positions per position class, lexemes per position, pairs"""
     if tier == "thorough":
         if name == "compact":
-            return dict(groups=ALL_GROUPS, per=0, lex=0, names=0, pairs=3000, trunc=1)
+            return dict(groups=ALL_GROUPS, per=0, lex=12, names=0, pairs=3000, trunc=1)
         if name == "rules":
             return dict(groups=["drop", "number", "name", "move", "retarget", "header", "constant"], per=1, lex=3, names=3, pairs=1500, trunc=50)
         return dict(groups=["drop", "number", "name", "move", "retarget", "header", "constant", "include", "doc"],
